@@ -73,7 +73,10 @@ func genPlans(t *rapid.T) []Plan {
 func genCase(o GenOpts) func(t *rapid.T) Case {
 	return func(t *rapid.T) Case {
 		var c Case
-		c.Rsize = rapid.SampledFrom([]int{8, 8, 16, 32, 64}).Draw(t, "rsize")
+		c.Rsize = []int{8, 16, 32, 64}[rapid.IntRange(0, 3).Draw(t, "rsize")]
+		if rapid.Bool().Draw(t, "wide") { // rapid favours small indices: spread the sizes with fair coins
+			c.Rsize = []int{8, 16, 32, 64}[2*b2i(rapid.Bool().Draw(t, "w1"))+b2i(rapid.Bool().Draw(t, "w0"))]
+		}
 		c.Src, c.Mpm = GenProgram(t, o, c.Rsize)
 		c.Plans = genPlans(t)
 		c.InVals = make([]uint64, 16)
@@ -85,6 +88,13 @@ func genCase(o GenOpts) func(t *rapid.T) Case {
 		}
 		return c
 	}
+}
+
+func b2i(b bool) int {
+	if b {
+		return 1
+	}
+	return 0
 }
 
 func numbered(text string) string {
@@ -183,7 +193,7 @@ func prop(c Case) pbt.Outcome {
 					i, c.Plans[i].GoMaxProcs, c.Plans[i].Sched, c.Src, dumpHead(r.Dump))})
 			}
 			tries++
-			if tries > 6 {
+			if tries > 3 {
 				break
 			}
 			*r = RunBondgo(c.Src, c.Rsize, c.Mpm, c.Plans[i])
@@ -223,6 +233,9 @@ func prop(c Case) pbt.Outcome {
 	if base.Status != "ok" {
 		why := firstErrorLine(base.Stdout, base.Stderr)
 		lab("verdict:rejected:" + why)
+		if os.Getenv("VERIF_C12_DEBUG") != "" && (base.Status == "crash" || len(facts.UnsupportedOps) == 0) {
+			fmt.Printf("DEBUG rejected (%s) rsize=%d mpm=%v\n%s--- stdout\n%s--- stderr\n%s\n", base.Status, c.Rsize, c.Mpm, c.Src, base.Stdout, dumpHead(base.Stderr))
+		}
 		if len(facts.UnsupportedOps) > 0 {
 			lab("verdict:rejected-unsupported-operator")
 		}
